@@ -1,10 +1,10 @@
 CONSTANTS
   MaxAttrs = 2
   MaxKids = 2
-  AttrKinds = {"call", "class", "onClick", "spread", "on", "dir", "vmodel", "trivial"}
+  AttrKinds = {"call", "class", "onClick", "spread", "on", "dir", "vmodel", "trivial", "vmodels"}
   KidKinds = {"call", "member", "trivial", "text", "elem", "comp", "direlem"}
   OptCombos = {"TTT", "FFF"}
-  AttrKinds3 = {"call", "class", "onClick", "spread", "on"}
+  AttrKinds3 = {"call", "class", "onClick", "spread", "on", "vmodels"}
   KidKinds3 = {"call"}
 INIT Init
 NEXT Next
